@@ -28,6 +28,7 @@ def run(rep):
     rep.guard(v6, rep, dev)
     rep.guard(v7, rep, dev)
     rep.guard(v8, rep, worlds)
+    rep.guard(v9, rep, worlds)
     import c09, c16
     rep.guard(c09.f4, rep, dev)     # an error raised after the raw active-fiber pointer was switched is reported on another fiber in builds that read the pointer
     rep.guard(c16.g2, rep, dev)     # the paced and the stress collector run at the same point of an allocation (before the new object is registered)
@@ -39,6 +40,7 @@ def run(rep):
     rep.guard(c01.r2, rep, dev)     # a handle kept outside the heap without a root: what it points to is gone after the next collection, which the stress build runs at every allocation
     import c04_narrow
     rep.guard(c04_narrow.b4n, rep, dev)   # a sub-word counter the compiler can overflow: the checked build panics in the compiler, the optimised build wraps and carries on with the wrapped count
+    rep.guard(c16.g3, rep, dev)     # bytes charged at allocation and credited at sweep are measured the same way: otherwise the counter underflows - a panic in the checked build, a wrapped budget in the optimised one
 
 
 def features_of(snip):
@@ -483,6 +485,39 @@ def v8(rep, worlds):
                     'the constant %s differs between the %s and the %s configuration (%s): generated or evaluated differently per build, so the two builds run different programs'
                     % (k, base_n, wn, 'missing in one' if a is None or b is None else ('texts of %d and %d characters' % (len(a[0] or ''), len(b[0] or '')) if what == 'text' else '%s vs %s' % (a[1], b[1]))),
                     '')
+
+
+def v9(rep, worlds):
+    """a `#[cfg(..)]` on a statement (a call that only one configuration makes: installing a buffered printer in optimised builds) changes a
+    function's body without changing its signature, so V3 does not see it and V1 - which classifies `cfg!()` expressions, present in both
+    worlds - does not either. Compared here directly: every function of the workspace (library and command line) makes the same calls in every
+    configuration; the listed paired items and the guard dereferences their two return types entail are the only differences."""
+    import collections
+    r = rep.rule('V9', 'every function makes the same calls in every configuration (apart from the listed paired items)', floor=300)
+    paired = {e.get('name') or e.get('fn') for e in c01.table('c10_paired_items.json')}
+    base_n, base = worlds[0]
+
+    def sig(f):
+        cnt = collections.Counter()
+        for _, t in f.calls(only_normal=False):
+            n = callee_name(t) or 'indirect'
+            if 'std::cell::Ref' in n and 'Deref' in n:
+                continue          # a Ref / RefMut guard where the other configuration hands out a plain reference
+            cnt[n] += 1
+        return cnt
+    for wn, w_ in worlds[1:]:
+        for p_, f in sorted(base.fns.items()):
+            g = w_.fns.get(p_)
+            if g is None or f.kind == 'Closure':
+                continue
+            if p_ in paired or p_.rsplit('::', 1)[-1] in paired:
+                r.ok('%s (listed paired item)' % p_, sample=False)
+                continue
+            a, b = sig(f), sig(g)
+            only_a, only_b = sorted((a - b).keys()), sorted((b - a).keys())
+            r.check(a == b, '%s makes the same calls in %s and %s' % (p_.replace('yarel::', ''), base_n, wn),
+                    '%s calls %s only in the %s configuration and %s only in %s: a statement under #[cfg] makes the builds behave differently' %
+                    (p_, [x.rsplit('::', 1)[-1] for x in only_a][:4] or 'nothing', base_n, [x.rsplit('::', 1)[-1] for x in only_b][:4] or 'nothing', wn), f.loc())
 
 
 def short_n(v):
